@@ -27,16 +27,17 @@ type C19Plan struct {
 	Blocks    int    `json:"blocks"` // chain length served by the peer
 	Start     int    `json:"start"`  // start block height
 	TxsPerBlk int    `json:"txs_per_block"`
-	Trigger   string `json:"trigger"` // connecting handshake headers blocks callback insync
+	Trigger   string `json:"trigger"` // connecting handshake headers blocks callback insync mined
 	K         int    `json:"k"`       // trigger count (k-th getheaders / block / callback)
 	Action    string `json:"action"`  // stop close reset close-stop (stop StopDelayMs after closing)
 	StopDelay int    `json:"stop_delay_ms,omitempty"`
 	TxTraffic bool   `json:"tx_traffic"` // peer streams inv/tx once in sync
 	// slow storage / output fetcher: the SlowK-th operation of kind SlowOp (write read fetch) after
 	// the trigger takes SlowMs longer, so that it is in flight while the node shuts down or reconnects
-	SlowOp string `json:"slow_op,omitempty"`
-	SlowK  int    `json:"slow_k,omitempty"`
-	SlowMs int    `json:"slow_ms,omitempty"`
+	SlowOp    string `json:"slow_op,omitempty"`
+	SlowK     int    `json:"slow_k,omitempty"`
+	SlowMs    int    `json:"slow_ms,omitempty"`
+	SlowEarly bool   `json:"slow_early,omitempty"` // count the slow operation from the in-sync notification instead of the trigger
 }
 
 type livePeer struct {
@@ -174,6 +175,44 @@ func (lp *livePeer) serve(c net.Conn, idx int) {
 	}
 }
 
+// announce makes b the peer's best block and sends what a Bitcoin node sends for it on the newest
+// connection.
+func (lp *livePeer) announce(b *verifkit.TBlock) {
+	lp.mu.Lock()
+	lp.fp.setBest(b)
+	out := lp.fp.toNode
+	lp.fp.toNode = nil
+	var c net.Conn
+	if len(lp.conns) > 0 {
+		c = lp.conns[len(lp.conns)-1]
+	}
+	lp.mu.Unlock()
+	if c != nil {
+		lp.write(c, out)
+	}
+}
+
+type safeFlags struct {
+	mu sync.Mutex
+	m  map[string]bool
+}
+
+func (f *safeFlags) set(k string) {
+	f.mu.Lock()
+	f.m[k] = true
+	f.mu.Unlock()
+}
+
+func (f *safeFlags) snapshot() map[string]bool {
+	f.mu.Lock()
+	defer f.mu.Unlock()
+	out := map[string]bool{}
+	for k := range f.m {
+		out[k] = true
+	}
+	return out
+}
+
 func (lp *livePeer) closeAll(reset bool) {
 	lp.mu.Lock()
 	conns := append([]net.Conn{}, lp.conns...)
@@ -195,10 +234,11 @@ func (lp *livePeer) shutdown() {
 
 // liveHandler records callbacks with wall-clock start times and can fire a hook on the k-th one.
 type liveHandler struct {
-	mu     sync.Mutex
-	events []recEvent
-	hook   func(n int)
-	delay  time.Duration
+	mu       sync.Mutex
+	events   []recEvent
+	hook     func(n int)
+	delay    time.Duration
+	onInsync func() // called at every in-sync notification
 }
 
 func (h *liveHandler) add(ev recEvent) {
@@ -207,7 +247,11 @@ func (h *liveHandler) add(ev recEvent) {
 	h.events = append(h.events, ev)
 	n := len(h.events)
 	hook, delay := h.hook, h.delay
+	onInsync := h.onInsync
 	h.mu.Unlock()
+	if ev.Kind == "insync" && onInsync != nil {
+		onInsync()
+	}
 	if hook != nil {
 		hook(n)
 	}
@@ -237,7 +281,16 @@ func (h *liveHandler) snapshot() []recEvent {
 }
 
 func c19Run(plan *C19Plan) (*nodeViolation, map[string]bool) {
+	if plan.Trigger == "mined" && (plan.Action == "close" || plan.Action == "reset") {
+		plan.Action = "stop" // the resume expectations below are written for a fixed peer chain
+	}
 	flags := map[string]bool{"trigger:" + plan.Trigger: true, "action:" + plan.Action: true}
+	flags2 := &safeFlags{m: map[string]bool{}}
+	defer func() {
+		for k := range flags2.snapshot() {
+			flags[k] = true
+		}
+	}()
 	fetch := newStubFetcher()
 	tree := verifkit.NewTree(genesisHeader())
 	var specs []TxSpec
@@ -319,6 +372,15 @@ func c19Run(plan *C19Plan) (*nodeViolation, map[string]bool) {
 	node.RegisterHandler(h)
 	_ = node.SubscribePushDatas(ctx, subUniverse)
 
+	if plan.SlowEarly {
+		// the slow operation is counted from the in-sync notification on, so that it can already be
+		// under way when the trigger fires
+		h.onInsync = func() {
+			slowMu.Lock()
+			slowArmed = true
+			slowMu.Unlock()
+		}
+	}
 	fired := make(chan struct{})
 	var once sync.Once
 	fire := func() {
@@ -367,6 +429,49 @@ func c19Run(plan *C19Plan) (*nodeViolation, map[string]bool) {
 					time.AfterFunc(time.Duration(20+plan.K*25)*time.Millisecond, fire)
 					return
 				}
+			}
+		}
+	case "mined":
+		// once in sync the peer streams transactions, mines an empty block (a point at which the node
+		// writes its unconfirmed set), then a block with everything streamed so far; the trigger is
+		// the announcement of that block to the handlers plus a little
+		lp.txStream = streamTxs
+		lp.streamOn = true
+		flags["tx-traffic"] = true
+		var minedOnce sync.Once
+		target := plan.Blocks + 2
+		h.hook = func(n int) {
+			evs := h.snapshotUnlocked()
+			insync := false
+			for _, e := range evs {
+				if e.Kind == "insync" {
+					insync = true
+				}
+				if e.Kind == "headers" && e.Height == target {
+					time.AfterFunc(time.Duration(plan.K*20)*time.Millisecond, fire)
+					return
+				}
+			}
+			if insync {
+				minedOnce.Do(func() {
+					go func() {
+						time.Sleep(time.Duration(150+plan.K*15) * time.Millisecond)
+						lp.mu.Lock()
+						lp.streamOn = false // nothing new after this: the second block empties the node's unconfirmed set
+						sent := len(streamTxs) - len(lp.txStream)
+						b1 := tree.Add(best, verifkit.ChainName("a", plan.Blocks+1), nil)
+						lp.mu.Unlock()
+						lp.announce(b1)
+						time.Sleep(120 * time.Millisecond)
+						lp.mu.Lock()
+						b2 := tree.Add(b1, verifkit.ChainName("a", plan.Blocks+2), streamTxs[:sent])
+						lp.mu.Unlock()
+						lp.announce(b2)
+						if sent > 0 {
+							flags2.set("streamed-txs-mined")
+						}
+					}()
+				})
 			}
 		}
 	}
@@ -536,7 +641,7 @@ func maxInt(a, b int) int {
 
 func genC19(t *rapid.T) *C19Plan {
 	p := &C19Plan{Blocks: rapid.IntRange(3, 24).Draw(t, "blocks"), TxsPerBlk: rapid.IntRange(0, 4).Draw(t, "txs"),
-		Trigger:   rapid.SampledFrom([]string{"connecting", "handshake", "headers", "blocks", "blocks", "callback", "callback", "insync", "insync"}).Draw(t, "trigger"),
+		Trigger:   rapid.SampledFrom([]string{"connecting", "handshake", "headers", "blocks", "blocks", "callback", "callback", "insync", "insync", "mined", "mined"}).Draw(t, "trigger"),
 		K:         rapid.IntRange(0, 12).Draw(t, "k"),
 		Action:    rapid.SampledFrom([]string{"stop", "stop", "close", "reset", "close-stop"}).Draw(t, "action"),
 		StopDelay: rapid.SampledFrom([]int{0, 30, 120, 220, 320, 450}).Draw(t, "stopdelay"),
@@ -552,11 +657,12 @@ func genC19(t *rapid.T) *C19Plan {
 		p.SlowOp = rapid.SampledFrom([]string{"write", "write", "read", "fetch", "fetch"}).Draw(t, "slowop")
 		p.SlowK = rapid.IntRange(0, 3).Draw(t, "slowk")
 		p.SlowMs = rapid.SampledFrom([]int{60, 150, 400}).Draw(t, "slowms")
+		p.SlowEarly = rapid.Bool().Draw(t, "slowearly")
 	}
 	return p
 }
 
-const c19Rule = "live mode: the real Node.Run against a reactive scripted peer on loopback TCP (serves headers/blocks from a generated chain with transactions, pings every 40 ms, optional inv/tx stream once in sync); at a logical trigger (while connecting, mid-handshake, k-th header request, k-th block served, inside the k-th handler callback, some ms after in-sync) Stop is requested or the connection is closed/reset, in a third of the plans with one storage write / read / output fetch after the trigger taking 60-400 ms longer so that it is in flight during the shutdown or reconnect; oracle: Stop and Run return (30 s), no callback starts after Stop returned, a fresh node reloads exactly the chain / unconfirmed set / peers, after a lost connection the node reconnects with its stored tip, resumes to the peer's tip and never re-announces a height; non-trivial = the trigger lies strictly inside the protocol exchange (not trigger-not-reached); distinct by plan hash; schedules are sampled by the Go scheduler, not enumerated"
+const c19Rule = "live mode: the real Node.Run against a reactive scripted peer on loopback TCP (serves headers/blocks from a generated chain with transactions, pings every 40 ms, optional inv/tx stream once in sync); at a logical trigger (while connecting, mid-handshake, k-th header request, k-th block served, inside the k-th handler callback, some ms after in-sync, or after streamed transactions were written at a block and then mined) Stop is requested or the connection is closed/reset, in a third of the plans with one storage write / read / output fetch after the trigger taking 60-400 ms longer so that it is in flight during the shutdown or reconnect; oracle: Stop and Run return (30 s), no callback starts after Stop returned, a fresh node reloads exactly the chain / unconfirmed set / peers, after a lost connection the node reconnects with its stored tip, resumes to the peer's tip and never re-announces a height; non-trivial = the trigger lies strictly inside the protocol exchange (not trigger-not-reached); distinct by plan hash; schedules are sampled by the Go scheduler, not enumerated"
 
 func TestC19Live(t *testing.T) {
 	rep := verifkit.NewReport("C19", "TestC19Live", c19Rule)
